@@ -960,7 +960,7 @@ def generate(repo, ref_path=REF):
 
 def write(repo=None, outfile=None, write_ref=False):
     repo = repo or os.environ.get("VERIF_REPO", "/repo")
-    outfile = outfile or os.path.join(VERIF, "coq", "gen", "KernelsGen.v")
+    outfile = outfile or os.path.join(os.environ.get("VERIF_GEN_OUT") or os.path.join(VERIF, "coq", "gen"), "KernelsGen.v")
     body, status = generate(repo)
     if write_ref:
         if status["out_of_grammar"]:
